@@ -166,7 +166,7 @@ pub fn run(ctx: &mut Ctx) {
       core
     };
     let mut core = fresh(&image);
-    let nplans = if thorough { 40 } else { 10 };
+    let nplans = if thorough { 48 } else { 16 };
     let mut finals: Vec<(Vec<u8>, String)> = Vec::new();
     for pi in 0..nplans {
       // partitions of >= 170 machine cycles
@@ -179,7 +179,14 @@ pub fn run(ctx: &mut Ctx) {
           2 => 160,
           3 => 159,
           4 => 80,
-          _ => 1 + rng.below(*rng.clone().pick(&[3u64, 10, 40, 170])) as u32,
+          // batches longer than a byte can count (a long translated block, a halted CPU catching up)
+          5 => 255,
+          6 => 256,
+          7 => 300,
+          8 => 1024,
+          9 => 17556,
+          10 => 65536 + 44,
+          _ => 1 + rng.below(*rng.clone().pick(&[3u64, 10, 40, 170, 600, 5000])) as u32,
         };
         plan.push(c);
         total += c;
